@@ -372,8 +372,12 @@ def parse_ragged(lang, code):
         val = parse_matlab('\n'.join(b), 'v')
         if len(rest) != 2:
             raise NotWellFormed('Matlab ragged: trailing %r' % rest)
-        m = _match(r'getsubarray = @\(k\) v\(((?::,)*)i\(1,k\)\+1:i\(2,k\)\);', rest[0], 'Matlab accessor')
-        acc = _acc(origin=1, kaxis='second', startadd=1, endincl=True, nplace=m.group(1).count(':'))
+        m = re.fullmatch(r'getsubarray = @\(k\) v\(((?::,)*)double\(i\(1,k\)\)\+1:double\(i\(2,k\)\)\);', rest[0])
+        arith = 'wide'
+        if not m:       # i(1,k)+1 is computed in the integer class fread('*type') gave the index array
+            m = _match(r'getsubarray = @\(k\) v\(((?::,)*)i\(1,k\)\+1:i\(2,k\)\);', rest[0], 'Matlab accessor')
+            arith = 'class'
+        acc = _acc(origin=1, kaxis='second', startadd=1, endincl=True, nplace=m.group(1).count(':'), arith=arith)
         ex = _example(r'% example to read (\w+) \(k=(\d+)\) subarray:', r'\nsa (=) getsubarray\((\d+)\);\s*$', raw, 'Matlab', ('=',))
         return {'idx': idx, 'val': val, 'acc': acc, 'ex': ex}
     if lang == 'scilab':
@@ -386,8 +390,12 @@ def parse_ragged(lang, code):
         val = parse_scilab('\n'.join(b), 'v')
         if len(rest) != 2:
             raise NotWellFormed('Scilab ragged: trailing %r' % rest)
-        m = _match(r'deff\("sa = getsubarray\(k\)", "sa = v\(((?::,)*)i\(1,k\)\+1:i\(2,k\)\)"\)', rest[0], 'Scilab accessor')
-        acc = _acc(origin=1, kaxis='second', startadd=1, endincl=True, nplace=m.group(1).count(':'))
+        m = re.fullmatch(r'deff\("sa = getsubarray\(k\)", "sa = v\(((?::,)*)double\(i\(1,k\)\)\+1:double\(i\(2,k\)\)\)"\)', rest[0])
+        arith = 'wide'
+        if not m:       # mgeti returns integers of the file's class
+            m = _match(r'deff\("sa = getsubarray\(k\)", "sa = v\(((?::,)*)i\(1,k\)\+1:i\(2,k\)\)"\)', rest[0], 'Scilab accessor')
+            arith = 'class'
+        acc = _acc(origin=1, kaxis='second', startadd=1, endincl=True, nplace=m.group(1).count(':'), arith=arith)
         ex = _example(r'/\* example to read (\w+) \(k=(\d+)\) subarray: \*/', r'\nsa (=) getsubarray\((\d+)\);\s*$', raw,
                       'Scilab', ('=',))
         return {'idx': idx, 'val': val, 'acc': acc, 'ex': ex}
@@ -464,9 +472,9 @@ def ragged_to_tla(rp, pid):
     e = rp['ex']
     return ('[id |-> %d, lang |-> "%s", idx |-> %s, val |-> %s, '
             'acc |-> [origin |-> %d, kaxis |-> "%s", startadd |-> %d, endadd |-> %d, endincl |-> %s, nplace |-> %d, '
-            'side |-> "%s", guard |-> "%s", emptydims |-> %s], '
+            'side |-> "%s", guard |-> "%s", arith |-> "%s", emptydims |-> %s], '
             'ex |-> [ordinal |-> "%s", kcomment |-> %d, k |-> %d, bindok |-> %s]]'
             % (pid, rp['idx']['lang'], plan_to_tla(rp['idx'], pid), plan_to_tla(rp['val'], pid), a['origin'], a['kaxis'],
-               a['startadd'], a['endadd'], 'TRUE' if a['endincl'] else 'FALSE', a['nplace'], a['side'], a['guard'],
+               a['startadd'], a['endadd'], 'TRUE' if a['endincl'] else 'FALSE', a['nplace'], a['side'], a['guard'], a.get('arith', 'wide'),
                ('<<' + ', '.join(map(str, a['emptydims'])) + '>>') if a['emptydims'] is not None else '<<-1>>',
                e['ordinal'], e['kcomment'], e['k'], 'TRUE' if e['bind_ok'] else 'FALSE'))
